@@ -177,4 +177,22 @@ var props = []propCfg{
 		LevelNote: "Trusted: the sequential reader (consumes file content by its known length, so look-alike content is unambiguous).",
 		DesignRef: "DESIGN.md section 4, C18",
 	},
+	{
+		ID: "C16", Pkg: "props/c16", Needs: []string{"fc"},
+		Tests: []testCfg{
+			{Name: "TestFaults", ShardsQ: 16, ShardsT: 16},
+			{Name: "TestTruncations", ShardsQ: 16, ShardsT: 16},
+			{Name: "TestMutants", Rapid: true, Quick: 4800, Thorough: 160000, ShardsQ: 16, ShardsT: 16},
+		},
+		Rule:      "seeds: every samples/*.fo, build_sample_md.fo and the hand-kept programs in corpus/seeds. Mutants (rapid, 1..3 composed): truncation, token deletion/duplication/swap/replacement, indentation damage (+-k columns, tabs), an opener (comment, string, raw string, interpolation, brace, bracket, keyword) inserted anywhere or left open at end of file with/without final newline, raw bytes (NUL, 0xff, CR, partial UTF-8, BOM), line deletion/duplication/swap, a slice of another seed spliced in, span deletion, and a family of 18 self-referential definitions appended. Exhaustive parts: every truncation offset of the 4 (quick) / 14 (thorough) smallest seeds; a fixed list of argument-list faults (no arguments, missing input, directory as input, empty file, .fo after a failing .fo, .foi only), output-path faults (destination is a directory, a dangling symlink, a symlink to /dev/full; also as second file) and every opener left open at end of file. Oracle: fc ends within 15 s (re-confirmed alone with 120 s), is not killed by a signal and prints no Go runtime fatal error; exit 0 => every requested gen_*.go exists, is not the sentinel and equals what a second run in a fresh directory writes; exit != 0 => some text beyond the progress lines was printed and the sentinel at the offending (and every later) file's destination is intact. Non-trivial = rejected mutants whose first changed byte lies after the seed's first complete definition, accepted mutants that differ from the seed, and all fault cases; distinct = hash of the file content / case.",
+		Technique: "mutation-based fuzzing of valid programs driven by rapid (shrinkable), exhaustive truncation sweeps and fault enumeration, with a process-behaviour validity oracle",
+		Assumptions: []string{
+			"an ordinary Go panic message with non-zero exit is a diagnostic (the project documents that errors are panics); only runtime fatal errors, signals and hangs are not",
+			"non-termination is decided by a 120 s solitary re-run (ordinary runs take milliseconds)",
+			"the offending file is the one named by fc's last 'transpile: <file>' progress line",
+		},
+		LevelText: "Generated-input search over the byte strings around valid programs plus enumerated faults, decided by what the real fc process does (exit status, output, files). Each failure is shrunk to a minimal file. Exploration with exhaustive truncation sweeps; inputs of a few KB; does not establish absence.",
+		LevelNote: "Trusted: the process runner (own process group, 1 GB address-space limit so that runaway recursion ends as a reported fatal error instead of exhausting the machine).",
+		DesignRef: "DESIGN.md section 4, C16",
+	},
 }
